@@ -2,9 +2,22 @@
 transform (split then swizzle, flatten then swap, flatten then flatten, flatten
 (levels>=2) then unflatten, ...) on tensors whose extents differ per rank.
 
-Shared by C09 (content moves to its image, result well-formed) and C14 (rank
-ids, authoritative shape, stored coordinates inside shape and active range).
-The oracle is a plain-Python model of (rank ids, shape, point -> value)."""
+Shared by C09 (content moves to its image, result well-formed, every earlier
+tensor of the chain untouched) and C14 (rank ids, authoritative shape, stored
+coordinates inside shape and active range; earlier tensors keep reporting what
+they reported).  The oracle is a plain-Python model of (rank ids, shape,
+point -> value).
+
+As a SECOND step (operand = a transform's result: split partitions whose
+active range starts above 0, list-named ranks, permuted shapes) the menu also
+holds flattenRanks with the int-coordinate styles absolute / linear (declared
+shape only) / relative (only as the inverse of a relative-coordinate split) and
+splitUniform addressed by rankid= and by rankid= plus a depth= that names
+another rank (rankid is documented to override depth).  A second family uses
+three ranks of pairwise different extents (2x3x4) with the programs made of
+swizzle / swap / flatten only, so that a 3-cycle of the ranks and its inverse
+give different shapes (visible to C14 directly, to C09 through a following
+linear flatten)."""
 import itertools
 
 from fibertree import Fiber, Tensor, Payload
@@ -499,3 +512,19 @@ def cases(n0, maxpts, declared_modes=(True, False), dims=None):
                 if not declared and needs_declared(prog):
                     continue
                 yield (n0, sel, declared, prog) if dims is None else (n0, sel, declared, prog, tuple(dims))
+
+
+def describe(quick):
+    """Text for ctx.bounds of C09 / C14."""
+    return ("second-generation programs (mc/compose.py): tensors built from <=%s points over extents 2x3 / 2x3x2 / 2x3x2x2 "
+            "(declared and estimated shape) x every legal ordered pair of {splitUniform(step 1|2, absolute|relative "
+            "coordinates) at every depth, swizzleRanks every permutation, swapRanks every depth, flattenRanks(depth, "
+            "levels 1|2, tuple)}; as the second step additionally flattenRanks with absolute / linear (declared shape) / "
+            "relative (after a relative split of the same rank) and splitUniform(2) addressed by rankid= and by rankid= + a "
+            "depth= naming the neighbouring rank; flatten -> unflatten pairs; 4 ranks: flattenRanks levels 2|3 in tuple and "
+            "pair style alone and followed by unflattenRanks; a flatten that would have to merge stored elements is skipped "
+            "(path counter compose:flatten-collision-skipped); plus 3 ranks of pairwise different extents 2x3x4 (<=%d points) "
+            "x the pairs made of swizzle / swap / flatten (tuple; as second step also absolute, linear) with at least one permutation.  After every step "
+            "every earlier tensor of the chain (the step's operand and the tensors before it) is compared with the snapshot "
+            "taken when it was made (rank ids, authoritative shape, C09: content and stored tree, C14: default)"
+            % ("3/1/2" if quick else "4/2/3", 1 if quick else 2))
